@@ -1529,16 +1529,18 @@ def compare(case, io, drv):
     if steps is None:
         return [("model", "impl harness failed: %r" % (io,)), ("spec", "impl harness failed")]
     if case.get("entry") == "xhist":
-        # the event-list specification covers histories without copies (tee hands an exception to one copy
-        # only); with copies the heap model alone is compared
+        # the event-list specification (`spec`) covers histories without copies (tee hands an exception to one
+        # copy only): compared up to the first copy / peek.  The specification with copies (`spec_copies`:
+        # event lists wherever nothing is shared, shared sequences read through views) is compared on the WHOLE
+        # history, like the heap model.
         cut = next((k for k, op in enumerate(case["ops"]) if op["op"] in ("copy", "peek")), None)
-        for kind in ("model", "spec"):
-            a, b = (steps, drv[kind]) if (cut is None or kind == "model") else (steps[:cut], drv[kind][:cut])
+        for kind, field in (("model", "model"), ("spec", "spec"), ("spec", "spec_copies")):
+            a, b = (steps, drv[field]) if (cut is None or field != "spec") else (steps[:cut], drv[field][:cut])
             d = _first_diff(a, b)
             if d is not None:
                 k, x, y = d
                 out.append((kind, "step %d %s: impl=%s %s=%s" % (k, case["ops"][k] if k < len(case["ops"]) else None,
-                                                                 _abbr(x), kind, _abbr(y))))
+                                                                 _abbr(x), field, _abbr(y))))
         return out
     cut = _cut(case, steps, drv)
     for kind in ("model", "spec"):
